@@ -25,7 +25,8 @@ def _flex_rects(cont_css, items_css):
             f'<div id="c" style="display:flex;width:100px;{cont_css}">' +
             ''.join(f'<div id="i{i}" style="{css}"></div>' for i, css in enumerate(items_css)) + '</div>')
     LAST_HTML[0] = html
-    _, rects = fx.extract(docs.render(html))
+    with gx.wall_clock(5):
+        _, rects = fx.extract(docs.render(html))
     return rects
 
 
@@ -132,6 +133,27 @@ def replay_grid_named_nth():
     return r[0][1] != 10
 
 
+def replay_grid_named_span_from_last_line():
+    # grid-column: 3 / span 2 foo on two 10px columns (three lines): two implicit tracks, 20px
+    r = _grid_rects('grid-template-columns:10px 10px;grid-auto-columns:10px;justify-content:start',
+                    ['grid-column:3 / span 2 foo;height:5px'])
+    return r[0][3] != 20
+
+
+def replay_grid_backward_named_span_count():
+    # grid-column: span foo / 4 on [foo] 10px [foo] 20px [foo] 30px: the foo line before line 4 is line 3
+    r = _grid_rects('grid-template-columns:[foo] 10px [foo] 20px [foo] 30px;justify-content:start',
+                    ['grid-column:span foo / 4;height:5px'])
+    return not (r[0][1] == 30 and r[0][3] == 30)
+
+
+def replay_flex_negative_factor():
+    # css-flexbox 7.2 / 7.3: negative flex-grow / flex-shrink are invalid, the declaration is ignored (grow 0):
+    # the flex:1 1 0 item takes the 100px
+    r = _flex_rects('', ['flex:1 1 0;height:5px', 'flex-grow:-1;flex-basis:0;height:5px'])
+    return r[0][3] != 100
+
+
 def replay_grid_justify_self_outer():
     r = _grid_rects('', ['justify-self:start;width:20px;padding:0 5px;height:5px'])
     return r[0][3] != 30
@@ -150,27 +172,104 @@ def replay_grid_leading_implicit_tracks():
     return not (r[0][1] == 0 and r[0][3] == 50 and r[1][1] == 50)
 
 
+# findings still open (known_findings.txt `finding:` lines)
 FINDINGS = {
+    'flex-vertical-auto-margins-zeroed': replay_flex_vertical_auto_margin,
+    'flex-fractional-factor-sum': replay_flex_fractional_sum,
+    'flex-content-base-clamped': replay_flex_content_base_clamped,
+    'grid-named-span-hang': replay_grid_named_span_hang,
+    'grid-negative-line-numbers': replay_grid_negative_line,
+    'grid-maximize-no-redistribution': replay_grid_maximize,
+    'grid-leading-implicit-tracks-misindexed': replay_grid_leading_implicit_tracks,
+    'grid-named-span-from-last-line': replay_grid_named_span_from_last_line,
+    'grid-backward-named-span-count': replay_grid_backward_named_span_count,
+    'flex-negative-factor-accepted': replay_flex_negative_factor,
+}
+
+# findings repaired in /repo (`fixed:` lines): their replay functions are regression cases; each must stay False
+FIXED = {
     'flex-clamp-no-redistribute': replay_flex_clamp,
     'flex-padding-not-counted': replay_flex_padding,
-    'flex-vertical-auto-margins-zeroed': replay_flex_vertical_auto_margin,
     'flex-negative-auto-margin': replay_flex_negative_auto_margin,
     'flex-cross-auto-margin-not-positioned': replay_flex_cross_auto_margin,
     'flex-align-content-last-item': replay_flex_align_content_last_item,
     'flex-column-clamps-by-width': replay_flex_column_clamps_by_width,
-    'flex-fractional-factor-sum': replay_flex_fractional_sum,
-    'flex-content-base-clamped': replay_flex_content_base_clamped,
     'grid-justify-ignores-gap': replay_grid_justify_gap,
     'grid-locked-skips-first-track': replay_grid_locked_first_track,
     'grid-span-first-axis-crash': replay_grid_span_crash,
-    'grid-named-span-hang': replay_grid_named_span_hang,
-    'grid-negative-line-numbers': replay_grid_negative_line,
-    'grid-maximize-no-redistribution': replay_grid_maximize,
     'grid-named-line-nth-ignored': replay_grid_named_nth,
     'grid-justify-self-outer-width': replay_grid_justify_self_outer,
     'grid-column-flow-implicit-start': replay_grid_column_flow_implicit_start,
-    'grid-leading-implicit-tracks-misindexed': replay_grid_leading_implicit_tracks,
 }
+
+
+def _fitem(ident, **kw):
+    it = {'id': ident, 'order': 0, 'grow': 0, 'shrink': 1, 'basis': 'auto', 'width': None, 'height': None,
+          'minw': None, 'maxw': None, 'minh': None, 'maxh': None, 'ml': 0, 'mr': 0, 'mt': 0, 'mb': 0,
+          'pl': 0, 'pr': 0, 'pt': 0, 'pb': 0, 'bl': 0, 'br': 0, 'bt': 0, 'bb': 0, 'align': 'auto'}
+    it.update(kw)
+    return it
+
+
+def _fcase(items, **kw):
+    case = {'dir': 'row', 'wrap': 'nowrap', 'width': 100, 'height': None, 'colgap': 0, 'rowgap': 0,
+            'justify': 'normal', 'align_items': 'normal', 'align_content': 'normal', 'items': items}
+    case.update(kw)
+    return case
+
+
+def _gitem(ident, **kw):
+    it = {'id': ident, 'order': 0, 'rs': 'auto', 're': 'auto', 'cs': 'auto', 'ce': 'auto', 'width': None, 'height': 5,
+          'ml': 0, 'mr': 0, 'mt': 0, 'mb': 0, 'pl': 0, 'pr': 0, 'pt': 0, 'pb': 0, 'bl': 0, 'br': 0, 'bt': 0, 'bb': 0,
+          'js': 'auto', 'as': 'auto'}
+    it.update(kw)
+    return it
+
+
+def _gdoc(items, **kw):
+    doc = {'rows': None, 'cols': None, 'auto_rows': ['auto'], 'auto_cols': ['auto'], 'flow': 'row', 'dense': False,
+           'areas': None, 'colgap': 0, 'rowgap': 0, 'width': 100, 'height': None, 'jc': 'normal', 'ac': 'normal',
+           'ji': 'normal', 'ai': 'normal', 'items': items}
+    doc.update(kw)
+    return doc
+
+
+def _pxcols(*sizes, names=None):
+    out = [('names', list(names[0]) if names else [])]
+    for k, size in enumerate(sizes):
+        out += [('size', ('px', F(size))), ('names', list(names[k + 1]) if names else [])]
+    return out
+
+
+def regression_cases():
+    """The inputs of the repaired findings in the wire format of the flex-doc / grid-doc sections (corpus-first:
+    they are compared with the model and judged by the oracles on every run)."""
+    flex110 = {'grow': 1, 'shrink': 1, 'basis': 0}
+    return [
+        ('flex-clamp-no-redistribute', 'flex', _fcase([_fitem(0, maxw=10, **flex110), _fitem(1, **flex110)])),
+        ('flex-padding-not-counted', 'flex', _fcase([_fitem(0, pl=10, pr=10, **flex110),
+                                                     _fitem(1, pl=10, pr=10, **flex110)])),
+        ('flex-negative-auto-margin', 'flex', _fcase([_fitem(0, shrink=0, width=120, height=10, ml=None)])),
+        ('flex-cross-auto-margin-not-positioned', 'flex',
+         _fcase([_fitem(0, height=40, width=30), _fitem(1, height=40, width=20, ml=None)],
+                dir='column', wrap='wrap', height=50, align_content='flex-start')),
+        ('flex-align-content-last-item', 'flex',
+         _fcase([_fitem(0, width=60, height=10), _fitem(1, width=60, height=30, align='flex-start'),
+                 _fitem(2, width=30, height=10, align='flex-end')], wrap='wrap', height=100, align_content='center')),
+        ('flex-column-clamps-by-width', 'flex',
+         _fcase([_fitem(0, maxw=10, **flex110), _fitem(1, **flex110)], dir='column', height=100)),
+        ('grid-justify-ignores-gap', 'grid', _gdoc([_gitem(0), _gitem(1)], cols=_pxcols(20, 20), colgap=10,
+                                                   jc='center')),
+        ('grid-locked-skips-first-track', 'grid', _gdoc([_gitem(0, rs=(None, 1, None))], cols=_pxcols(20, 30))),
+        ('grid-span-first-axis-crash', 'grid',
+         _gdoc([_gitem(0, rs=('span', 2, None), cs=(None, 2, None), height=None)], cols=_pxcols(20, 30))),
+        ('grid-named-line-nth-ignored', 'grid',
+         _gdoc([_gitem(0, cs=(None, 2, 'p'))], cols=_pxcols(10, 20, 30, names=[['p'], ['p'], ['p'], []]),
+               jc='start')),
+        ('grid-justify-self-outer-width', 'grid', _gdoc([_gitem(0, width=20, pl=5, pr=5, js='start')])),
+        ('grid-column-flow-implicit-start', 'grid',
+         _gdoc([_gitem(0, re=(None, 1, None)), _gitem(1)], flow='column')),
+    ]
 
 
 # --------------------------------------------------------------------------- helpers
@@ -192,11 +291,12 @@ FLEX_BRANCHES = [
     '9.7.1:grow', '9.7.1:shrink', '9.7.3:some-frozen', '9.7.3:none-frozen',
     '9.7.5b:factor-sum<1', '9.7.5b:factor-sum>=1', '9.7.5b:magnitude-replaced', '9.7.5b:magnitude-kept',
     '9.7.5c:remaining=0', '9.7.5c:grow', '9.7.5c:shrink', '9.7.5c:shrink-sum=0', '9.7.5c:zero-division',
-    '9.7.5c:min_max-clamps', '9.7.5c:no-clamp', '9.7.5d:min-violation', '9.7.5d:no-violation',
+    '9.7.5d:min-violation', '9.7.5d:no-min-violation', '9.7.5d:max-violation', '9.7.5d:no-max-violation',
+    '9.7.5e:freeze-all', '9.7.5e:freeze-min', '9.7.5e:freeze-max',
     '9.7:passes=0', '9.7:passes=1', '9.7:passes=2', '9.7:passes=3', '9.7:passes=3+',
     '8:single-line-definite-cross', '8:cross-from-items', '9:stretch-lines', '9:no-extra', '9:indefinite-cross',
     '9:not-stretch', '11:stretched-item', '11:no-stretch',
-    '12:auto-margins', '12:auto-margins-negative', '12:free<0', '12:free=0', '12:free>0', '12:stretch-quirk',
+    '12:auto-margins', '12:auto-margins-overflow', '12:free<0', '12:free=0', '12:free>0', '12:stretch-quirk',
     '12:justify', '13:auto-cross-margins', '13:auto-cross-margins-no-room', '14:end', '14:center', '14:stretch',
     '14:start', '16:no-extra', '16:shift', '16:space-between', '16:start', '16:single-line',
     'final:min/max-reclamp', 'final:as-computed', 'result:ok', 'result:error']
@@ -210,7 +310,7 @@ GRID_BRANCHES = [
     '1.3:implicit-tracks-before', '1.3:no-track-before', '1.3:implicit-tracks-after', '1.3:explicit-grid-only',
     '4:negative-row-dropped', '4:all-rows-laid-out', '4:negative-column-index', '4:columns>=0', '4:spanning-area',
     '4:single-cells', '4:auto-inline-margin',
-    'err:UnboundLocalError@grid_layout.first_i', 'err:NonTermination@_get_second_placement.sparse',
+    'err:NonTermination@_get_second_placement.sparse',
     'err:NonTermination@_get_second_placement.dense', 'err:NonTermination@grid_layout.while',
     'err:NonTermination@grid_layout.sparse.count', 'err:NonTermination@grid_layout.dense.count',
     'cols:err:IndexError@tracks_children', 'cols:err:IndexError@tracks_children_(spanning)',
@@ -307,7 +407,9 @@ class C12(PropCheck):
         'alignment, item boxes for empty block items) as Wp.Grid.*',
         'the harness replaces itertools.count inside weasyprint.layout.grid by a counter bounded at 200 values '
         '(same bound in the model) and reads areas / track sizes through a pass-through wrapper of '
-        '_resolve_tracks_sizes; a CPU-time limit (ITIMER_PROF) stands for the unbounded `while True` loops',
+        '_resolve_tracks_sizes; a CPU-time limit (ITIMER_PROF) stands for the unbounded `while True` loops of the grid '
+        'placement and for the `while not all frozen` loop of flex 9.7.5 (a layout that does not come back is the '
+        'outcome err:NonTermination)',
         'float layout results are compared exactly when dyadic, within 1e-9 otherwise (counted as float_rounding)',
     )
     assumptions = (
@@ -322,14 +424,32 @@ class C12(PropCheck):
         rng = run.rng
         rounding = {}
 
+        sec_reg = tolerant_section(
+            run, 'regressions',
+            'corpus first: the documents of the repaired findings (known_findings.txt `fixed:` lines), compared with the '
+            'models and, on a disagreement, judged by the oracles and by their replay functions; non-trivial = always')
+        for ident, kind, data in regression_cases():
+            if kind == 'flex':
+                sec_reg.add(fx.wire(data), fx.impl_out(data), meta={'kind': 'flex', 'case': data, 'regression': ident},
+                            tags=[ident])
+            else:
+                sec_reg.add(gx.wire_doc(data), gx.impl_doc(data, 5), meta={'kind': 'grid', 'doc': data,
+                                                                          'regression': ident}, tags=[ident])
+        sec_reg.flush()
+
         sec = tolerant_section(
             run, 'flex-doc',
             'rendered flex containers of 1..8 empty items (row/column, reverse, wrap, gaps, every justify-content / '
             'align-items / align-content, flex-basis/grow/shrink/order/margins/min/max/padding/border): border boxes '
             'of the laid-out children and container height; non-trivial = at least two items or a flexing item')
         cases = [fx.gen_case(rng) for _ in range(run.n(2500, 24000))]
+        hangs = 0          # layouts that did not come back (10 s of CPU each): after five the section stops
         for case, mtags in zip(cases, model_tags('flextags', [fx.wire(c) for c in cases])):
+            if hangs >= 5:
+                run.notes.append('flex-doc stopped early: five layouts did not terminate')
+                break
             out = fx.impl_out(case)
+            hangs += out == 'err:NonTermination'
             sec.add(fx.wire(case), out, meta={'kind': 'flex', 'case': case},
                     nontrivial=len(case['items']) >= 2 or any(it['grow'] for it in case['items']),
                     tags=mtags + [f'n{len(case["items"])}', f'justify:{case["justify"]}'])
@@ -339,7 +459,10 @@ class C12(PropCheck):
             'non-trivial = the implementation returned a layout')
         cases = [fx.gen_case(rng, adversarial=True) for _ in range(run.n(400, 5000))]
         for case, mtags in zip(cases, model_tags('flextags', [fx.wire(c) for c in cases])):
+            if hangs >= 5:
+                break
             out = fx.impl_out(case)
+            hangs += out == 'err:NonTermination'
             sec_adv.add(fx.wire(case), out, meta={'kind': 'flex', 'case': case}, nontrivial=out.startswith('ok'),
                         tags=mtags + [out.split()[0]])
 
@@ -378,10 +501,14 @@ class C12(PropCheck):
                       nontrivial=p[2] is not None or (p[1] or 1) < 0, tags=['named' if p[2] else 'numeric'])
 
         sec_p = run.section('grid-get-placement', '_get_placement on random start/end pairs (numbers, spans, names, '
-                            'negative numbers) and line-name lists; non-trivial = not both auto')
+                            'negative numbers, and the family of spans counted in named lines towards a line carrying the name) and '
+                            'line-name lists; non-trivial = not both auto')
         for _ in range(run.n(12000, 250000)):
-            s, e = gx.gen_place(rng, 0.4, 0.25), gx.gen_place(rng, 0.4, 0.25)
-            lines = gx.gen_lines(rng)
+            if rng.random() < 0.12:
+                s, e, lines = gx.gen_named_span_case(rng)
+            else:
+                s, e = gx.gen_place(rng, 0.4, 0.25), gx.gen_place(rng, 0.4, 0.25)
+                lines = gx.gen_lines(rng)
             out = docs.outcome(lambda: gx.canon_pair(grid._get_placement(s, e, lines)))
             kind = 'named' if any(p != 'auto' and p[2] for p in (s, e)) else 'numeric'
             sec_p.add(sx.line('placement', gx.wire_place(s), gx.wire_place(e), lines), out,
@@ -457,8 +584,11 @@ class C12(PropCheck):
             'against the models fed with the longhand values; non-trivial = always')
         for _ in range(run.n(250, 3000)):
             case = fx.gen_case(rng)
-            sec_sh.add(fx.wire(case), fx.impl_out(case, shorthand=True),
-                       meta={'kind': 'flex', 'case': case, 'shorthand': True}, tags=['flex'])
+            if hangs >= 5:
+                continue                 # (the random draws above are still made: same documents in the next sections)
+            out = fx.impl_out(case, shorthand=True)
+            hangs += out == 'err:NonTermination'
+            sec_sh.add(fx.wire(case), out, meta={'kind': 'flex', 'case': case, 'shorthand': True}, tags=['flex'])
         for _ in range(run.n(120, 1500)):
             doc = gx.gen_doc(rng)
             sec_sh.add(gx.wire_doc(doc), gx.impl_doc(doc, seconds, shorthand=True),
@@ -471,17 +601,42 @@ class C12(PropCheck):
             'never_hit': [b for b in FLEX_BRANCHES + GRID_BRANCHES if b not in hit],
             'unlisted': sorted(t for t in hit if ':' in t and t not in known and not t.startswith(('justify:',))),
             'histogram': {s.name: dict(s.tags) for s in (sec, sec_adv, sec_g)}}
-        for s in (sec, sec_adv, sec_r, sec_g, sec_sh):
+        for s in (sec_reg, sec, sec_adv, sec_r, sec_g, sec_sh):
             s.flush()
             rounding[s.name] = s.float_rounding
         run.extra['float_rounding'] = rounding
         run.extra['exhaustive'] = True
         run.extra['exhaustive_what'] = '_intersect on all positions -3..6 x sizes 0..4 (2500 quadruples)'
 
+    # ------------------------------------------------------------------ classify
+    def classify(self, d):
+        """Negative flex factors are invalid CSS that the validator lets through (finding flex-negative-factor-accepted):
+        9.7 is not monotone with them and a float rounding residue in one target can flip the `adjustments == 0`
+        decision of 9.7.5.e.  A disagreement between two *layouts* (no error on either side) on such an input is
+        explained by that finding; everything else (errors, valid factors) is not."""
+        meta = d.get('meta') or {}
+        if meta.get('kind') != 'flex' or not (d['impl'].startswith('ok ') and d['model'].startswith('ok ')):
+            return None
+        case = case_from_meta(meta['case'])
+        if any(it['grow'] < 0 or it['shrink'] < 0 for it in case['items']):
+            return 'flex-negative-factor-accepted'
+        return None
+
     # ------------------------------------------------------------------ judge
     def judge(self, d):
         meta = d.get('meta') or {}
         kind = meta.get('kind')
+        if meta.get('regression') in FIXED:
+            ident = meta['regression']
+            try:
+                back = FIXED[ident]()
+            except Exception as exc:  # noqa: BLE001
+                back = f'{type(exc).__name__}'
+            if back:
+                from vlib import findings
+                what = {f['id']: f['what'] for f in findings.for_property('C12', kind='fixed')}
+                return (f'regression of the repaired finding {ident}: its committed input fails again'
+                        + (f' ({what[ident]})' if ident in what else '') + f'; implementation output: {d["impl"][:300]}')
         if kind == 'flex':
             case = case_from_meta(meta['case'])
             if d['impl'].startswith('err:'):
@@ -498,14 +653,9 @@ class C12(PropCheck):
                 return f'_intersect({p1}, {s1}, {p2}, {s2}) = {d["impl"]}: half-open intervals overlap is {want}'
             return None
         if kind == 'placement':
-            start, end = tuple_place(meta['start']), tuple_place(meta['end'])
-            want = orc.placement_reference(start, end, None)
-            if want is None:
-                return None
-            want = 'none' if want == 'auto' else f'({want[0]} {want[1]})'
-            if d['impl'] != want:
-                return f'_get_placement({start}, {end}) = {d["impl"]}, css-grid line placement gives {want}'
-            return None
+            return placement_violation(tuple_place(meta['start']), tuple_place(meta['end']), meta['lines'], d['impl'])
+        if kind == 'getline':
+            return getline_violation(tuple_place(meta['place']), meta['lines'], meta['side'], d['impl'])
         if kind == 'grid':
             doc = doc_from_meta(meta['doc'])
             return (orc.grid_doc_violation(doc, d['impl']) or orc.dense_violation(doc, d['impl'])
@@ -526,10 +676,62 @@ class C12(PropCheck):
         docs.quiet()
         found = []
         rng = run.rng
+        for ident, replay in FIXED.items():            # the repaired findings first: each must stay repaired
+            run.search_stats['evaluations'] += 1
+            try:
+                back = replay()
+            except Exception as exc:  # noqa: BLE001
+                back = f'{type(exc).__name__}'
+            if back:
+                found.append({'what': f'regression of the repaired finding {ident}: its committed input fails again',
+                              'input': {'meta': {'kind': 'fixed-replay', 'id': ident}, 'html': LAST_HTML[0]},
+                              'signature': f'fixed:{ident}'})
+        if found:
+            return found[:3]
+
+        def try_flex(case):
+            out = fx.impl_out(case)
+            parsed = fx.parse_out(out)
+            what = (f'flex_layout raised {out[4:]}' if out.startswith('err:')
+                    else (orc.flex_violation(case, parsed) or orc.flex_cross_violation(case, parsed)
+                          or orc.flex_lines_violation(case, parsed)))
+            if what:
+                found.append({'what': what, 'input': {'meta': {'kind': 'flex', 'case': case},
+                                                      'html': fx.html_of(case), 'impl': out},
+                              'signature': fx.wire(case)})
+
+        def try_grid(doc):
+            out = gx.impl_doc(doc, 6)
+            what = (orc.grid_doc_violation(doc, out) or orc.dense_violation(doc, out) or tracks_doc_violation(doc, out)
+                    or orc.grid_geometry_violation(doc, out))
+            if what:
+                found.append({'what': what, 'input': {'meta': {'kind': 'grid', 'doc': doc},
+                                                      'html': gx.html_of(doc), 'impl': out},
+                              'signature': gx.wire_doc(doc)})
+
+        # 1. the disagreeing documents themselves, projected into the domain the oracles can judge (positive unnamed
+        #    lines, no template areas / no paddings, min / max, ...), a few random projections each
+        broken = [f['detail'] for f in failures if f.get('kind') == 'correspondence' and isinstance(f.get('detail'), dict)]
+        dense_bias = False
+        for d in broken[:40]:
+            meta = d.get('meta') or {}
+            for _ in range(3):
+                run.search_stats['evaluations'] += 1
+                if meta.get('kind') == 'grid':
+                    doc = doc_from_meta(meta['doc'])
+                    dense_bias = dense_bias or bool(doc['dense'])
+                    try_grid(simplify_grid_doc(doc, rng))
+                elif meta.get('kind') == 'flex':
+                    try_flex(simplify_flex_case(case_from_meta(meta['case']), rng))
+                if len(found) >= 3:
+                    return found
+        # 2. fresh documents of the judged domain
+        grid_only = bool(broken) and all((d.get('meta') or {}).get('kind') == 'grid' for d in broken)
+        flex_only = bool(broken) and all((d.get('meta') or {}).get('kind') == 'flex' for d in broken)
         budget = 4000 if run.thorough else 1200
         for k in range(budget):
             run.search_stats['evaluations'] += 1
-            if k % 3 != 2:
+            if (k % 3 != 2 and not grid_only) or flex_only:
                 case = simple_flex_case(rng)
                 out = fx.impl_out(case)
                 parsed = fx.parse_out(out)
@@ -542,6 +744,8 @@ class C12(PropCheck):
                                   'signature': fx.wire(case)})
             else:
                 doc = simple_grid_doc(rng)
+                if dense_bias:
+                    doc['dense'] = True
                 out = gx.impl_doc(doc, 6)
                 what = (orc.grid_doc_violation(doc, out) or orc.dense_violation(doc, out) or tracks_doc_violation(doc, out)
                         or orc.grid_geometry_violation(doc, out))
@@ -561,6 +765,8 @@ class C12(PropCheck):
         meta = inp.get('meta') or {}
         kind = meta.get('kind')
         docs.quiet()
+        if kind == 'fixed-replay':
+            return (f'regression of the repaired finding {meta["id"]}' if FIXED[meta['id']]() else None)
         if kind == 'flex':
             case = case_from_meta(meta['case'])
             out = fx.impl_out(case)
@@ -583,11 +789,16 @@ class C12(PropCheck):
             return None
         if kind == 'placement':
             start, end = tuple_place(meta['start']), tuple_place(meta['end'])
-            want = orc.placement_reference(start, end, None)
-            got = docs.outcome(lambda: grid._get_placement(start, end, meta['lines']))
-            if want is not None and got != (None if want == 'auto' else want):
-                return f'_get_placement({start}, {end}) = {got}, css-grid gives {want}'
-            return None
+            out = docs.outcome(lambda: gx.canon_pair(grid._get_placement(start, end, meta['lines'])))
+            return placement_violation(start, end, meta['lines'], out)
+        if kind == 'getline':
+            place = tuple_place(meta['place'])
+
+            def call():
+                sp, num, ident, coord = grid._get_line(place, meta['lines'], meta['side'])
+                return (f"({sp or 'none'} {'none' if num is None else num} {ident or 'none'} "
+                        f"{'none' if coord is None else coord})")
+            return getline_violation(place, meta['lines'], meta['side'], docs.outcome(call))
         if kind == 'second':
             m = second_meta(meta)
             out = docs.outcome(lambda: gx.canon_pair(grid._get_second_placement(
@@ -607,6 +818,32 @@ class C12(PropCheck):
         return None
 
 
+def placement_violation(start, end, lines, impl):
+    """`_get_placement` against css-grid 8.3 (numbers, names, spans, named spans; positive numbers)."""
+    want = orc.placement_reference(start, end, None)
+    if want is None:
+        want = orc.placement_reference_named(start, end, lines)
+    if want is None:
+        return None
+    shown = 'none' if want == 'auto' else f'({want[0]} {want[1]})'
+    if impl != shown:
+        return (f'_get_placement({orc.show_place(start)} / {orc.show_place(end)}, line names {lines}) = {impl}, '
+                f'css-grid line placement gives {shown}')
+    return None
+
+
+def getline_violation(place, lines, side, impl):
+    """`_get_line` for `<integer> <name>` / `<name>` / `<integer>` (positive): index of the line."""
+    want = orc.named_line_reference(place, lines, side)
+    if want is None or not impl.startswith('('):
+        return None if want is None or impl.startswith('(') else f'_get_line({place}) raised {impl[4:]}'
+    got = impl.strip('()').split()[-1]
+    if got != str(want):
+        return (f'_get_line({orc.show_place(place)}, line names {lines}, {side}) gives line index {got}, css-grid '
+                f'gives {want}')
+    return None
+
+
 def second_meta(meta):
     m = dict(meta)
     m['fp'] = tuple(m['fp'])
@@ -616,11 +853,14 @@ def second_meta(meta):
 
 
 def simple_flex_case(rng):
-    """A flex case inside the judged domain of the oracle (no padding, no min/max, factor sums >= 1)."""
-    case = fx.gen_case(rng)
+    """A flex case inside the judged domain of the oracle (factor sums >= 1, definite or zero base sizes)."""
+    return simplify_flex_case(fx.gen_case(rng), rng)
+
+
+def simplify_flex_case(case, rng):
+    """Project a flex case into the judged domain of the oracle."""
     case['justify'] = rng.choice(sorted(orc.JUDGED_JUSTIFY) + ['left', 'right', 'start', 'end'])
     for it in case['items']:
-        it.update({'pl': 0, 'pr': 0, 'pt': 0, 'pb': 0, 'minw': None, 'maxw': None, 'minh': None, 'maxh': None})
         it['grow'] = rng.choice([0, 1, 1, 2, 3])
         it['shrink'] = rng.choice([0, 1, 1, 2])
         if it['basis'] == 'content':
@@ -633,7 +873,11 @@ def simple_flex_case(rng):
 
 def simple_grid_doc(rng):
     """A grid whose items use positive unnamed lines, numeric spans or auto."""
-    doc = gx.gen_doc(rng)
+    return simplify_grid_doc(gx.gen_doc(rng), rng)
+
+
+def simplify_grid_doc(doc, rng):
+    """Project a grid document into the judged domain of the oracles (positive unnamed lines, numeric spans, auto)."""
     doc['areas'] = None
 
     def plain(p):
@@ -646,10 +890,23 @@ def simple_grid_doc(rng):
         return (None, number or 1, None)
     for it in doc['items']:
         it['rs'], it['re'], it['cs'], it['ce'] = (plain(it[k]) for k in ('rs', 're', 'cs', 'ce'))
-        if it['rs'] != 'auto' and it['rs'][0] == 'span' or it['re'] != 'auto' and it['re'][0] == 'span':
-            it['rs'] = it['re'] = 'auto'
-        if it['cs'] != 'auto' and it['cs'][0] == 'span' or it['ce'] != 'auto' and it['ce'][0] == 'span':
-            it['cs'] = it['ce'] = 'auto'
+        for a, b in (('rs', 're'), ('cs', 'ce')):
+            start, end = it[a], it[b]
+            if start != 'auto' and start[0] == 'span':
+                if end != 'auto' and end[0] != 'span':
+                    # `span n / line`: keep the area inside the grid (no track before the explicit grid)
+                    it[b] = (None, max(end[1], start[1] + 1), None)
+                elif end != 'auto':
+                    it[b] = 'auto'           # two spans: the end one is dropped anyway
+            elif start == 'auto' and end != 'auto' and end[0] != 'span':
+                it[b] = (None, max(end[1], 2), None)
+            # an item that may span several tracks has no intrinsic size (assumption of the models)
+            spanning = any(p != 'auto' and p[0] == 'span' and p[1] > 1 for p in (it[a], it[b])) or (
+                it[a] != 'auto' and it[b] != 'auto' and it[a][0] is None and it[b][0] is None)
+            if spanning:
+                for k in (('height', 'mt', 'mb', 'pt', 'pb', 'bt', 'bb') if a == 'rs' else
+                          ('width', 'ml', 'mr', 'pl', 'pr', 'bl', 'br')):
+                    it[k] = None if k in ('height', 'width') else 0
     for key in ('rows', 'cols'):
         t = doc[key]
         if t is not None:
@@ -856,8 +1113,8 @@ def write_corpus():
     from vlib import findings
     from vlib.paths import CORPUS
     (CORPUS / 'C12').mkdir(parents=True, exist_ok=True)
-    what = {f['id']: f['what'] for f in findings.for_property('C12')}
-    for ident, replay in FINDINGS.items():
+    what = {f['id']: f['what'] for f in findings.for_property('C12') + findings.for_property('C12', kind='fixed')}
+    for ident, replay in list(FINDINGS.items()) + list(FIXED.items()):
         LAST_HTML[0] = None
         try:
             still = bool(replay())
@@ -876,20 +1133,25 @@ MANIFEST = {
                  'and grid_layout, direct calls for the private grid functions); model branch tags per case',
     'text': 'Proved for all inputs on the models: order-modified document order is a stable sort and survives the whole '
             'layout (lines, wrap-reverse, *-reverse); step-5 lines partition the items, fit the main size and are '
-            'maximal; the 9.7 loop freezes an item per pass and terminates; whatever the number of passes, a line whose '
-            'last pass is not clamped (factor sum >= 1) is filled exactly with proportional shares; justify-content '
-            'spacing, auto margins, align-self / stretch, align-content stretch; _intersect is half-open interval '
-            'overlap; numeric line placement (positive numbers), named lines and template areas (first occurrence); '
-            'auto-placed grid items (step 1.4, dense step 1.2) overlap nothing placed before; px / % / minmax / fr tracks: '
-            '1.3 conserves space and keeps tracks within bounds, tracks and gaps partition the container; an item is '
-            'inside its area (stretch: margin box = area; start / center / end). Keyword sets of the alignment branches '
-            'and the graphs of _intersect / _get_placement / _get_span are regenerated from the source each run.',
+            'maximal; the 9.7 loop freezes an item per pass (min violations, max violations or all) and terminates; '
+            'whatever the number of passes, what is left of the main size after the last pass is exactly minus its total '
+            'min/max violation, so a line whose last violations cancel is filled exactly, with proportional shares in '
+            'the single-pass case; every used main size is within the item min / max sizes; justify-content spacing, '
+            'auto margins absorb positive free space only, align-self / stretch / auto cross margins, align-content '
+            'stretch and one translation per line; _intersect is half-open interval overlap; numeric line placement '
+            '(positive numbers), named lines (n-th occurrence) and template areas; auto-placed grid items (step 1.4, '
+            'dense step 1.2) overlap nothing placed before, the sparse cursor never moves backwards; px / % / minmax / fr '
+            'tracks: 1.3 conserves space and keeps tracks within bounds, tracks and gaps partition the container; an '
+            'item margin box is its area (stretch) or aligned inside it (start / center / end, any margins, paddings, '
+            'borders). Keyword sets of the alignment branches and the graphs of _intersect / _get_placement / _get_span '
+            'are regenerated from the source each run.',
     'note': 'Trusted: Lean kernel, the AST/graph translator, the correspondence harness (sampled, empty block items, '
-            'definite container width). Nineteen known findings (clamp inside 9.7.5.c, paddings not counted, auto '
-            'margins, fractional factor sums, content base size clamped, negative grid lines, n-th named line, tracks '
-            'before the explicit grid, crashes / hangs of the placement loops, column gaps ignored by justify-content, '
-            'single-pass maximize, outer width for justify-self) are witnessed in Witness/C12.lean and replayed each run '
-            '(corpus/C12); the corresponding theorems carry explicit hypotheses. Repair patches: repairs/C12/*.diff. '
-            'Intrinsic sizing, baselines, auto-fit/auto-fill, subgrid and spanning items over content-sized tracks are '
-            'not modelled.',
+            'definite container width). Ten known findings (negative flex factors accepted, auto top/bottom margins zeroed, fractional factor sums, '
+            'content base size clamped, negative grid lines, tracks before the explicit grid, hang of a span to a '
+            'missing line name, single-pass maximize, named span from the last explicit line doubled, backward named '
+            'span counted with the end line integer) are witnessed in Witness/C12.lean and replayed each run '
+            '(corpus/C12); the corresponding theorems carry explicit hypotheses. Twelve repaired findings are kept as '
+            'regression theorems (Witness/C12.lean `..._fixed`), as corpus-first correspondence cases (section '
+            '`regressions`) and as replay functions run first by the failing-input search. Intrinsic sizing, baselines, '
+            'auto-fit/auto-fill, subgrid and spanning items over content-sized tracks are not modelled.',
 }
